@@ -228,6 +228,9 @@ class FunctionDecoratorManager(DecoratorManager):
         def on_func_var_deleted():
             if self.status is DecoratorManagerStatus.RUNNING:
                 self.hass.async_create_task(self.stop())
+            elif self.status is DecoratorManagerStatus.VALIDATED:
+                # still waiting for its global context to start: never start it
+                self.update_status(DecoratorManagerStatus.STOPPED)
 
         weakref.finalize(eval_func_var, on_func_var_deleted)
 
